@@ -16,8 +16,11 @@ NEEDS = ('icontract',)
 RULE = ('A case is one (file, operation history): a generated RP66V1 file (as C01, with at least one record in >= 3 segments and >= 2 '
         'visible records) and 50..400 operations drawn from full fetches (random / repeated / descending / ascending index), '
         '(offset, -1) and (offset, length) fetches placed around segment and visible-record boundaries (b-1, b, b+1), zero lengths, '
-        'lengths and offsets at and beyond the end, fetches by position, and interleaved complete or abandoned sequential passes and '
-        'index rescans on the same reader.  Distinct by file bytes + operation list.  Non-trivial = the history has a partial fetch '
+        'lengths and offsets at and beyond the end (rarely 2**31..10**20), fetches by position (the index\'s own position object or an '
+        'equal one kept from a position scan), interleaved complete or abandoned sequential passes and index rescans on the same '
+        'reader, suspended passes resumed between fetches (only the fetches are asserted), the index closed and entered again, '
+        'fetches from a second index kept open on another file, results kept by the caller (some read through, all re-checked later); '
+        'every fifth file also indexed from a path; one file of 1000+ records per shard.  Distinct by file bytes + operation list.  Non-trivial = the history has a partial fetch '
         'whose range crosses a segment boundary of its record and a fetch whose index is lower than that of the fetch before it.  '
         'Enumerated sub-spaces (distinct by construction): every (offset 0..L+2, length -1..L+3) pair on records of every cut in the '
         'stated scope; a pair is non-trivial when its range crosses a segment boundary.')
@@ -28,6 +31,8 @@ ASSUMPTIONS = [
     'neighbouring segments in the same visible records); reads that return no bytes (at end of file) touch nothing',
     'the index entry length (ld_length, documented as including pad bytes) is not part of the property; agreement with '
     'payload+pad is only counted',
+    'a fetch returns a LogicalData whose read cursor is at 0 (what FileLogicalData.seal() documents and every decoder relies on); an '
+    'object kept from an earlier fetch keeps its bytes whatever is fetched later',
 ]
 _PF = 'TotalDepth.RP66V1.core.pFile'
 _PI = 'TotalDepth.RP66V1.core.pIndex'
@@ -39,7 +44,8 @@ MECHANISMS = [
     (_PI, 'LogicalRecordIndex.get_file_logical_data'),
     (_PI, 'LogicalRecordIndex.get_file_logical_data_at_position'),
 ]
-REQUIRED_MONITORS = ['fetch_vs_model', 'read_containment', 'index_vs_model', 'sequential_pass', 'exhaustive_pairs',
+REQUIRED_MONITORS = ['fetch_vs_model', 'read_containment', 'index_vs_model', 'sequential_pass', 'exhaustive_pairs', 'earlier_results_unchanged',
+                     'index_from_path',
                      'contract:FileRead.get_file_logical_data', 'contract:FileRead.seek_next_header',
                      'contract:FileRead.read_full_logical_data', 'contract:FileLogicalData.invariant']
 MIN_NONTRIVIAL = {'quick': 15000, 'thorough': 1000000}
@@ -159,6 +165,10 @@ class Driver:
         self.kinds = {}
         self.f2_recorded = 0
         self.op_sequences = set()
+        self.held = None            # results kept by the caller during a history
+        self.alt_positions = None   # position objects from a rescan (equal to the index's, other objects)
+        self.tmpdir = __import__('os').environ.get('VERIF_SHARD_TMP') or None
+        self.hrng = random.Random(0)
 
     def violation(self, monitor, kind, msg, witness, exc=None, cap_key=None):
         key = (monitor, cap_key or kind)
@@ -215,15 +225,21 @@ class Driver:
         rm = model.records[i]
         P = rm.lr.payload
         expected = P if (offset == 0 and length < 0) else (P[offset:] if length < 0 else P[offset:offset + length])
-        tap.mark()
+        if tap is not None:
+            tap.mark()
         try:
             if how == 'default':
                 fld = idx.get_file_logical_data(i)
             elif how == 'pos':
                 fld = idx.get_file_logical_data_at_position(idx[i].position, offset, length)
+            elif how == 'pos2':     # a position object of equal value that is not the index's own (kept from an earlier position scan)
+                fld = idx.get_file_logical_data_at_position(self.alt_positions[i], offset, length)
             else:
                 fld = idx.get_file_logical_data(i, offset, length)
             got = fld.logical_data.bytes
+            ld = fld.logical_data
+            # what a consumer reads through the LogicalData interface (cursor at the start, everything remaining)
+            via_cursor = ld.view_remaining(ld.remain) if ld.index == 0 else None
         except Exception as e:
             self.violation('fetch_vs_model', 'raised', 'fetch(%d, %d, %d) raised %s: %s' % (i, offset, length, type(e).__name__, e),
                            dict(self.base_witness(data, model, i, history), offset=offset, length=length, how=how), exc=e)
@@ -254,7 +270,26 @@ class Driver:
         for name, msg in breaches:
             self.violation('contract:' + name, 'breach', msg, dict(self.base_witness(data, model, i, history), contract=name, message=msg,
                                                                   offset=offset, length=length))
+        if got == expected and via_cursor != expected:
+            # the bytes are right but a consumer (EFLR / IFLR decoding reads from the cursor) would not see them from the start:
+            # e.g. an object handed out before and already read by its first consumer
+            self.violation('fetch_vs_model', 'cursor', 'fetch(%d, %d, %d) returned a LogicalData whose cursor is at %r of %d bytes (a consumer reads from the cursor)'
+                           % (i, offset, length, fld.logical_data.index, len(got)),
+                           dict(self.base_witness(data, model, i, history), offset=offset, length=length, index=fld.logical_data.index))
+        # the caller keeps some results and uses them as a consumer does (advancing the cursor); they must stay what they were
+        if self.held is not None:
+            r = self.hrng.random()
+            if r < 0.25:
+                if r < 0.12 and len(got):
+                    fld.logical_data.seek(self.hrng.randrange(1, len(got) + 1))
+                self.held.append((fld, expected, (i, offset, length)))
+                if len(self.held) > 24:
+                    del self.held[self.hrng.randrange(len(self.held))]
+            elif r < 0.30:
+                self.check_held(data, model, history)
         # read containment
+        if tap is None:
+            return got
         rec.mon('read_containment')
         rec.add('fetch_reads', len(tap.reads))
         rec.add('fetch_bytes_read', sum(n for _, n in tap.reads))
@@ -265,6 +300,16 @@ class Driver:
                 dict(self.base_witness(data, model, i, history), offset=offset, length=length, reads=tap.reads[:100], outside=bad[:20],
                      allowed=rm.vr_ranges))
         return got
+
+    def check_held(self, data, model, history):
+        """Results of earlier fetches that the caller kept: later fetches must not have changed them."""
+        for fld, expected, (i, offset, length) in self.held or []:
+            self.rec.mon('earlier_results_unchanged')
+            now = fld.logical_data.bytes if fld.logical_data is not None else None
+            if now != expected:
+                self.violation('earlier_results_unchanged', 'changed', 'the result of an earlier fetch(%d, %d, %d) changed after later fetches: %s bytes now, %d when returned'
+                               % (i, offset, length, None if now is None else len(now), len(expected)),
+                               dict(self.base_witness(data, model, i, history), offset=offset, length=length))
 
     def sequential(self, idx, data, model, limit, history):
         rec = self.rec
@@ -291,10 +336,14 @@ class Driver:
                            % (k, len(got), len(exp)), self.base_witness(data, model, k if k < len(model.records) else None, history))
 
     # ---- random operation history on one file
-    def history_case(self, rng, data, model, n_ops, sample=False):
+    def history_case(self, rng, data, model, n_ops, sample=False, twin=None, extra_classes=()):
+        """twin: (data, model) of another file; a second index on it may be kept open and fetched from in between."""
         from tdv.mon.tap import TapFile
         rec = self.rec
         rng = random.Random(rng.getrandbits(64))    # own stream: the shard stream never depends on how a history went
+        self.held, self.hrng, self.alt_positions = [], random.Random(rng.getrandbits(32)), None
+        live = {}                   # suspended generators of the reader's own iterators, stepped between fetches
+        other = None
         tap = TapFile(data, name='<c02>')
         n = len(model.records)
         bnd = [boundaries(r) for r in model.records]
@@ -315,8 +364,63 @@ class Driver:
         try:
             if not self.check_index(idx, data, model):
                 return
+            if twin is not None and rng.random() < 0.4:
+                tap2 = TapFile(twin[0], name='<c02-twin>')
+                try:
+                    idx2 = self.Index.LogicalRecordIndex(tap2)
+                    idx2.__enter__()
+                    other = (idx2, tap2, twin[0], twin[1])
+                    rec.cls('history:second-index-open')
+                except Exception as e:
+                    self.violation('index_vs_model', 'raised', 'indexing a conformant file raised %s: %s' % (type(e).__name__, e),
+                                   self.base_witness(twin[0], twin[1]), exc=e)
             for step in range(n_ops):
                 r = rng.random()
+                if 0.02 <= r < 0.05:
+                    if r < 0.032:
+                        # a suspended pass of one of the reader's own iterators is resumed between fetches.  Only the fetches are
+                        # asserted: what a resumed pass yields after the cursor was moved is not part of the property
+                        which = 'records' if r < 0.027 else 'positions'
+                        ops.append(('resume-suspended-pass', which))
+                        rec.add('suspended_pass_steps')
+                        try:
+                            if which not in live:
+                                live[which] = (idx.rp66v1_file.iter_logical_records() if which == 'records'
+                                               else idx.rp66v1_file.iter_logical_record_positions())
+                            for _ in range(rng.choice([1, 1, 2, 4])):
+                                next(live[which])
+                        except StopIteration:
+                            live.pop(which, None)
+                        except Exception:
+                            live.pop(which, None)
+                        continue
+                    if r < 0.042:
+                        if other is None:
+                            continue
+                        idx2, tap2, data2, model2 = other
+                        j = rng.randrange(len(model2.records))
+                        L2 = len(model2.records[j].lr.payload)
+                        if rng.random() < 0.5:
+                            o2, l2, h2 = 0, -1, 'default'
+                        else:
+                            o2, l2, h2 = rng.randrange(0, L2 + 2), rng.choice([-1, 0, 1, rng.randrange(0, L2 + 2)]), 'args'
+                        ops.append(('second-index', j, o2, l2))
+                        self.fetch(idx2, tap2, data2, model2, j, o2, l2, h2, ops)
+                        continue
+                    # the same index object closed and entered again
+                    ops.append(('reenter',))
+                    rec.add('index_reentered')
+                    live.clear()
+                    try:
+                        idx_cm.__exit__(None, None, None)
+                        idx_cm.__enter__()
+                    except Exception as e:
+                        self.violation('index_vs_model', 'raised', 'closing and entering the index again raised %s: %s' % (type(e).__name__, e),
+                                       self.base_witness(data, model, None, ops), exc=e)
+                        return
+                    if not self.check_index(idx, data, model, tag='index entered a second time'):
+                        return
+                    continue
                 if r < 0.015:
                     limit = None if rng.random() < 0.5 else rng.randrange(1, n + 1)
                     ops.append(('seq', -1 if limit is None else limit))
@@ -330,6 +434,8 @@ class Driver:
                         self.violation('index_vs_model', 'raised', 'rescan raised %s: %s' % (type(e).__name__, e), self.base_witness(data, model, None, ops), exc=e)
                         continue
                     self._check_rescan(again, idx, data, model, ops)
+                    if len(again) == n:
+                        self.alt_positions = [e.position for e in again]
                     continue
                 # ---- which record
                 if run is not None and 0 <= run[1] < n:
@@ -364,9 +470,13 @@ class Driver:
                     cand = [0, L, L + 1, L + rng.randrange(2, 50), rng.randrange(0, L + 1)]
                     for b in (rng.choice(marks), rng.choice(marks)):
                         cand.extend([b - 1, b, b + 1])
+                    if rng.random() < 0.03:
+                        cand = [2 ** 31 - 1, 2 ** 31, 2 ** 32 + 5, 2 ** 63, 10 ** 20]
                     offset = max(0, rng.choice(cand))
                     if k < 0.40:
                         length = -1
+                    elif rng.random() < 0.03:
+                        length = rng.choice([2 ** 31 - 1, 2 ** 31, 2 ** 32 + 5, 2 ** 63, 10 ** 20])
                     else:
                         lc = [0, 1, 2, L - offset, L - offset + 1, L - offset - 1, L + 10, rng.randrange(0, L + 2)]
                         for b in (rng.choice(marks), rng.choice(marks), rng.choice(marks)):
@@ -375,6 +485,8 @@ class Driver:
                         if length < 0:
                             length = rng.choice([0, 1, rng.randrange(0, L + 2)])
                     how = rng.choice(['args', 'args', 'pos'])
+                if how == 'pos' and self.alt_positions is not None and rng.random() < 0.5:
+                    how = 'pos2'
                 ops.append((how, i, offset, length))
                 if last_i is not None and i < last_i:
                     descending = True
@@ -385,13 +497,16 @@ class Driver:
                     if any(offset < b < min(L, offset + length) for b in vrb):
                         rec.add('partial_fetches_crossing_a_visible_record_boundary')
                 self.fetch(idx, tap, data, model, i, offset, length, how, ops)
+            self.check_held(data, model, ops)
         finally:
-            try:
-                idx_cm.__exit__(None, None, None)
-            except Exception:
-                pass
+            self.held = None
+            for cm in [idx_cm] + ([other[0]] if other else []):
+                try:
+                    cm.__exit__(None, None, None)
+                except Exception:
+                    pass
         from tdv.core.rec import digest
-        cl = model.classes()
+        cl = model.classes() + list(extra_classes)
         rec.case((digest(data), ops), crosses and descending, classes=['history:' + c for c in cl],
                  sample={'file_len': len(data), 'records': [r.describe() for r in model.records[:2]], 'operations': [list(o) for o in ops[:12]],
                          'n_operations': len(ops)} if sample else None)
@@ -403,6 +518,36 @@ class Driver:
         rec.add('tap_reads_total', tap.n_reads)
         rec.add('tap_seeks_total', tap.n_seeks)
         rec.add('tap_bytes_total', tap.bytes_read)
+
+    def path_case(self, rng, data, model, n_ops):
+        """The index built from a path (a real, buffered file): index entries and fetched values against the model (reads cannot be tapped)."""
+        import os
+        if not self.tmpdir:
+            return
+        rec = self.rec
+        rng = random.Random(rng.getrandbits(64))
+        path = os.path.join(self.tmpdir, 'c02_path.dlis')
+        with open(path, 'wb') as f:
+            f.write(data)
+        rec.mon('index_from_path')
+        ops = []
+        try:
+            with self.Index.LogicalRecordIndex(path) as idx:
+                if not self.check_index(idx, data, model, tag='index from a path'):
+                    return
+                n = len(model.records)
+                for _ in range(n_ops):
+                    i = rng.randrange(n)
+                    L = len(model.records[i].lr.payload)
+                    if rng.random() < 0.4:
+                        o, ln, how = 0, -1, 'default'
+                    else:
+                        o, ln, how = rng.randrange(0, L + 2), rng.choice([-1, 0, 1, L, rng.randrange(0, L + 2)]), rng.choice(['args', 'pos'])
+                    ops.append((how, i, o, ln))
+                    self.fetch(idx, None, data, model, i, o, ln, how, ops)
+                    rec.add('fetches_from_a_path_index')
+        except Exception as e:
+            self.violation('index_vs_model', 'raised', 'index from a path raised %s: %s' % (type(e).__name__, e), self.base_witness(data, model, None, ops), exc=e)
 
     def _check_rescan(self, again, idx, data, model, ops):
         self.rec.mon('index_vs_model')
@@ -496,6 +641,23 @@ def enumerated(ctx, drv, rng, p):
                    sample={'records': len(jobs)})
 
 
+def big_file_case(ctx, drv, rng):
+    """One file per shard with far more records than the random files have (index of 1000+ entries), fetched at random."""
+    from tdv.gen import dlis
+    n = rng.randrange(1000, 2200) if ctx.tier == 'quick' else rng.randrange(3000, 9000)
+    lay = dlis.random_layout(rng)
+    lay.update(vr_cap=rng.choice([40, 64, 200, 1000, 8192, 16384]), p_enc_padbit=0.0)
+    lrs = []
+    for i in range(n):
+        ln = rng.choice([0, 1, 4, 12, 13, rng.randrange(0, 60), rng.randrange(0, 60)])
+        if rng.random() < 0.01:
+            ln = rng.randrange(200, 2000)
+        lrs.append(dlis.LR(rng.random() < 0.5, rng.choice([0, 1, 3, 5, 128, rng.randrange(256)]),
+                           (__import__('struct').pack('>I', i * 2654435761 & 0xffffffff) * (ln // 4 + 1))[:ln], False))
+    data, model = dlis.write_file(rng, lrs, layout=lay)
+    drv.history_case(rng, data, model, rng.randrange(150, 300), extra_classes=['records>=1000'])
+
+
 def run_shard(ctx, p):
     from TotalDepth.RP66V1.core import File, Index
     from tdv.mon import contracts
@@ -503,9 +665,14 @@ def run_shard(ctx, p):
     rng = ctx.rng if ctx.shard == p['part'] else random.Random('%s:%s:%s' % (ctx.seed, ID, p['part']))
     ctx.rng = rng
     drv = Driver(ctx, File, Index, contracts)
+    prev = None
     for k in range(p['n_files']):
         data, model = spanning_file(rng)
-        drv.history_case(rng, data, model, rng.randrange(50, 401), sample=(k < 1))
+        drv.history_case(rng, data, model, rng.randrange(50, 401), sample=(k < 1), twin=prev)
+        if k % 5 == 0:
+            drv.path_case(rng, data, model, 40)
+        prev = (data, model)
+    big_file_case(ctx, drv, rng)
     enumerated(ctx, drv, rng, p)
     rec = ctx.rec
     rec.add('distinct_operation_kind_sequences', len(drv.op_sequences))
